@@ -42,11 +42,13 @@ def cases(tier, seed):
     n2 = 10 if tier == "quick" else 60
     for k in range(n2):
         out.append(dict(level=2, extended=bool(k % 2), cycles=300 if tier == "quick" else 900, density=[0.08, 0.2, 0.5, 0.9][k % 4],
-                        seed="C20/2/%d/%d" % (seed, k), name="L2-%s-%d" % ("ext" if k % 2 else "basic", k), cost=10))
+                        mw_dyn=bool(k % 3 == 2), seed="C20/2/%d/%d" % (seed, k),
+                        name="L2-%s-%d%s" % ("ext" if k % 2 else "basic", k, "-mwdyn" if k % 3 == 2 else ""), cost=10))
     n3 = 6 if tier == "quick" else 30
     for k in range(n3):
         out.append(dict(level=3, extended=bool(k % 2), cycles=200 if tier == "quick" else 600, density=[0.05, 0.1, 0.3][k % 3],
-                        clk=[50e6, 100e6, 200e6][k % 3], seed="C20/3/%d/%d" % (seed, k), name="L3-phy-%s-%d" % ("ext" if k % 2 else "basic", k), cost=20))
+                        clk=[50e6, 100e6, 200e6][k % 3], mw_dyn=bool(k % 2 == 0 or k % 3 == 1), seed="C20/3/%d/%d" % (seed, k),
+                        name="L3-phy-%s-%d%s" % ("ext" if k % 2 else "basic", k, "-mwdyn" if (k % 2 == 0 or k % 3 == 1) else ""), cost=20))
     n4 = 8 if tier == "quick" else 40
     for k in range(n4):
         out.append(dict(level=4, masked_write=k % 2, wck_ck_ratio=[2, 4][(k // 2) % 2], cycles=1500 if tier == "quick" else 5000,
@@ -324,7 +326,7 @@ def run_level1(c):
 # ------------------------------------------------------------------------------------------------ level 2
 def run_level2(c):
     from .. import shim  # noqa
-    from migen import Module
+    from migen import Module, Signal
     from litedram.phy.dfi import Interface
     from litedram.phy.lpddr4.commands import DFIPhaseAdapter
     from litedram.phy.utils import CommandsPipeline
@@ -335,7 +337,8 @@ def run_level2(c):
     class DUT(Module):
         def __init__(self):
             self.dfi = Interface(addressbits=17, bankbits=6, nranks=1, databits=16, nphases=NPH)
-            adapters = [DFIPhaseAdapter(ph, masked_write=True) for ph in self.dfi.phases]
+            self.mw = Signal(reset=1)
+            adapters = [DFIPhaseAdapter(ph, masked_write=self.mw if c.get("mw_dyn") else True) for ph in self.dfi.phases]
             self.submodules += adapters
             self.submodules.pipe = CommandsPipeline(adapters, cs_ser_width=NPH, ca_ser_width=NPH, ca_nbits=6, cmd_nphases_span=4,
                                                     extended_overlaps_check=c["extended"])
@@ -348,8 +351,10 @@ def run_level2(c):
             from litedram.phy.utils import Latency
             pads = LPDDR4SimulationPads()
             self.submodules += pads
+            self.mw = Signal(reset=1)
             self.submodules.phy = LPDDR4PHY(pads, sys_clk_freq=c.get("clk", 50e6), ser_latency=Latency(sys=1), des_latency=Latency(sys=2),
-                                            phytype="VerifLPDDR4", masked_write=True, extended_overlaps_check=c["extended"])
+                                            phytype="VerifLPDDR4", masked_write=self.mw if c.get("mw_dyn") else True,
+                                            extended_overlaps_check=c["extended"])
             self.dfi = self.phy.dfi
 
             class _P:
@@ -364,11 +369,17 @@ def run_level2(c):
     state = dict(done=False)
     ncyc = c["cycles"]
 
+    mw_at = {}     # slot -> value of the (dynamic) masked_write selection in the cycle the command was presented
+
     def main():
         for k in range(ncyc + 6):
             stm = []
+            mw_now = r.getrandbits(1) if c.get("mw_dyn") else 1
+            if c.get("mw_dyn"):
+                stm.append(dut.mw.eq(mw_now))
             for ph in range(NPH):
                 p = dut.dfi.phases[ph]
+                mw_at[k * NPH + ph] = mw_now
                 if k < ncyc and r.random() < c["density"]:
                     cmd, bank, addr = rand_phase(r, 17, 6, r.randrange(4))
                     if cmd == "ZQC":
@@ -420,7 +431,7 @@ def run_level2(c):
         if slot - last_emitted < 4:
             suppressed.append(slot)
             continue
-        emitted[slot] = lp4_expected(cmd, bank, addr, 1)
+        emitted[slot] = lp4_expected(cmd, bank, addr, mw_at.get(slot, 1))
         last_emitted = slot
     # ---- constant latency
     lat = None
